@@ -26,7 +26,7 @@ type Plan struct {
 	Cfg       Config
 	Blocks    []Block
 	ExportAt  int // import node starts after this many blocks (0 = no export)
-	RestartAt int // the noisy replica is rebuilt from its database after this many blocks (0 = never)
+	Restarts  []int // the noisy replica is rebuilt from its database before these block indices
 }
 
 func savePlan(p Plan, why string) string {
@@ -211,9 +211,11 @@ func replicate(p Plan, want []BlockResult, replicas int) (out outcome) {
 			noisy := r%2 == 1
 			for bi, blk := range p.Blocks {
 				if noisy {
-					if p.RestartAt > 0 && bi == p.RestartAt {
-						n.Restart()
-						out.restarted = true
+					for _, ri := range p.Restarts {
+						if ri == bi {
+							n.Restart()
+							out.restarted = true
+						}
 					}
 					n.Noise(blk.Dt, blk.Txs, blk.Ghosts)
 				}
@@ -352,8 +354,12 @@ func runCase(rt *rapid.T, c *drv.Case) {
 	if nb >= 2 && rapid.IntRange(0, 3).Draw(rt, "doExport") > 0 {
 		p.ExportAt = rapid.IntRange(1, nb-1).Draw(rt, "exportAt")
 	}
-	if rapid.IntRange(0, 2).Draw(rt, "doRestart") > 0 {
-		p.RestartAt = rapid.IntRange(1, nb-1).Draw(rt, "restartAt")
+	if rapid.IntRange(0, 3).Draw(rt, "doRestart") > 0 {
+		for bi := 1; bi < nb; bi++ {
+			if rapid.IntRange(0, 3).Draw(rt, "restartHere") == 0 {
+				p.Restarts = append(p.Restarts, bi)
+			}
+		}
 	}
 	// replica 1: plain + export/import; replica 2: noisy + restart; thorough adds one more of each
 	replicas := 2
